@@ -883,6 +883,13 @@ class Translator:
                 self.bad(node, "bytes([…]) of elements that are not ints")
             lst = "[" + ", ".join(self.to_int(e) for e in els) + "]"
             return V(self.hoist(f"PyRt.bytesOfE {lst}", "Bytes", node), "Bytes")          # ValueError outside range(256)
+        if (fname in ("floor", "math.floor") and len(node.args) == 1 and not kw and isinstance(node.args[0], ast.BinOp)
+                and isinstance(node.args[0].op, ast.Div) and any(n == "fdivfloor" for n, _ in self.spec.get("externals", ()))):
+            # `floor(a / b)`: a float division — the external `fdivfloor a b` (ZeroDivisionError inside it)
+            a, b = self.expr(node.args[0].left, env), self.expr(node.args[0].right, env)
+            if not (is_int(a.typ) and is_int(b.typ)):
+                self.bad(node, f"floor(a / b) on {a.typ}, {b.typ}")
+            return V(self.hoist(f"fdivfloor {self.to_int(a)} {self.to_int(b)}", "Int", node), "Int")
         if fname == "bool" and len(node.args) == 1 and not kw:
             x = self.expr(node.args[0], env)
             if x.typ == "Bool":
@@ -1415,6 +1422,18 @@ class Translator:
                 and self.key(c0.func.value) in self.places and self.places[self.key(c0.func.value)][2].startswith("List ")):
             env2, line = self.bind(c0.func.value, V("[]", "EmptyList"), env, st)
             return line + "\n" + self.block(rest, env2, frame)
+        if (isinstance(c0, ast.Call) and isinstance(c0.func, ast.Attribute) and c0.func.attr == "extend" and len(c0.args) == 1
+                and not c0.keywords and self.key(c0.func.value) in self.places and self.places[self.key(c0.func.value)][2].startswith("List ")):
+            pk = self.key(c0.func.value)
+            v, hs = self.eval(c0.args[0], env)
+
+            def inner_ext():
+                cur = self.read_place(pk, env, st)
+                typ = self.places[pk][2]
+                new = V(f"({cur.term} ++ {self.coerce(v, typ, st)})", typ)
+                env2, line = self.bind(c0.func.value, new, env, st)
+                return line + "\n" + self.block(rest, env2, frame)
+            return self.with_hoists(hs, env, frame, inner_ext)
         ap = self.append_call(st)
         if ap is not None:
             pk, arg = ap
@@ -1487,6 +1506,20 @@ class Translator:
         return new
 
     def s_If(self, st, rest, env, frame):
+        t = st.test
+        if (isinstance(t, ast.Compare) and len(t.ops) == 1 and isinstance(t.ops[0], ast.Is) and isinstance(t.left, ast.Name)
+                and isinstance(t.comparators[0], ast.Constant) and t.comparators[0].value is None and not st.orelse
+                and len(st.body) == 1 and isinstance(st.body[0], ast.Assign) and len(st.body[0].targets) == 1
+                and isinstance(st.body[0].targets[0], ast.Name) and st.body[0].targets[0].id == t.left.id
+                and t.left.id in env and env[t.left.id].typ.startswith("Option ")
+                and t.left.id not in self.spec.get("locals", {}) and t.left.id not in self.spec.get("maybe_locals", {})):
+            # `if x is None: x = e`: afterwards x is not None — it becomes a value of the inner type
+            x = env[t.left.id]
+            inner = elem_type(x.typ)
+            v = self.strict(lambda: self.expr(st.body[0].value, env))
+            if v.typ == inner:
+                env2, line = self.bind(t.left, V(f"(Option.getD {x.term} {v.term})", inner), env, st)
+                return line + "\n" + self.block(rest, env2, frame)
         if isinstance(st.test, (ast.BoolOp, ast.UnaryOp, ast.Name, ast.Attribute)):
             cond = self.as_condition(st.test, env)
             if cond is not st.test:
@@ -1566,7 +1599,7 @@ class Translator:
                 if s.value.func.value.id not in acc:
                     acc.append(s.value.func.value.id)
             elif (isinstance(s, ast.Expr) and isinstance(s.value, ast.Call) and isinstance(s.value.func, ast.Attribute)
-                  and s.value.func.attr == "clear" and self.key(s.value.func.value) in self.places):
+                  and s.value.func.attr in ("clear", "extend") and self.key(s.value.func.value) in self.places):
                 pk = self.key(s.value.func.value)
                 key = "__st" if self.places[pk][3] == "s" else ("place", pk)
                 if key not in acc:
@@ -2263,7 +2296,17 @@ def _translate(tr, func, spec, assume_raises):
     if tr.state is not None:
         binders.append((tr.state["param"], tr.state["type"]))
     sig = "".join(f"{{{t} : Type}} " for t in spec.get("tparams", ())) + " ".join(f"({n} : {ty(t)})" for n, t in binders)
-    out.extend(a.replace("\0RTYPE\0", rtype) for a in getattr(tr, "aux_defs", []))
+    # (a loop body may have been rendered several times while the types of the loop state settled: keep the rounds in use)
+    aux = list(getattr(tr, "aux_defs", []))
+    used, frontier = [], [text]
+    while frontier:
+        cur = frontier.pop()
+        for a in aux:
+            nm_ = a.split()[1]
+            if a not in used and (nm_ + " ") in cur.replace(")", " ").replace("\n", " "):
+                used.append(a)
+                frontier.append(a.split(":=", 1)[1])
+    out.extend(a.replace("\0RTYPE\0", rtype) for a in aux if a in used)
     out.append(f"def {tr.name} {sig} : {rtype} :=\n{ind(text)}\n")
     return "\n".join(out)
 
